@@ -185,6 +185,49 @@ def check_no_autoviv(prog: Program, res: Result) -> None:
                             instance=inst)
             else:
                 res.ok("R-NO-AUTOVIV", inst, "")
+    # mapping subclasses used inside the graph modules: a lookup of an absent
+    # key (``__missing__`` / ``__getitem__`` / ``get``) must not store it
+    n = 0
+    for ci in prog.classes.values():
+        if not ci.module.name.startswith("graphs"):
+            continue
+        if not any(b in ("dict", "UserDict", "defaultdict", "OrderedDict")
+                   for b in ci.bases):
+            continue
+        if "defaultdict" in ci.bases:
+            res.bad("R-NO-AUTOVIV", f"{ci.name} derives from defaultdict",
+                    ci.module.loc(ci.node), f"{ci.name}: lookups of absent "
+                    "keys insert entries", instance=f"{ci.name} lookups")
+            continue
+        for mname in ("__missing__", "__getitem__", "get", "__contains__"):
+            fi = ci.methods.get(mname)
+            if fi is None:
+                continue
+            n += 1
+            me = fi.params()[0]
+            inst = f"{ci.name}.{mname} does not store"
+            writes = []
+            for x in ast.walk(fi.node):
+                if isinstance(x, ast.Subscript) and isinstance(
+                        x.ctx, (ast.Store, ast.Del)) and norm(x.value) == me:
+                    writes.append(norm(x, 60))
+                elif isinstance(x, ast.Call) and isinstance(
+                        x.func, ast.Attribute) and x.func.attr in (
+                        "setdefault", "update", "__setitem__", "pop",
+                        "popitem", "clear", "__delitem__") and (
+                        norm(x.func.value) == me
+                        or norm(x.func.value).startswith("super(")):
+                    writes.append(norm(x, 60))
+            if writes:
+                res.bad("R-NO-AUTOVIV", f"{ci.name}.{mname}: {writes[0]}",
+                        fi.loc(), f"{inst}: `{writes[0]}` inserts the missing "
+                        "key, so hashing, comparing, reactant()/product() and "
+                        "export change the stereo-change views they read",
+                        instance=inst)
+            else:
+                res.ok("R-NO-AUTOVIV", inst, fi.loc())
+    res.need("R-NO-AUTOVIV", n, 1, "lookup hooks of mapping subclasses in "
+             "the graph modules")
 
 
 # --------------------------------------------------------------------------
@@ -536,3 +579,11 @@ def run(prog: Program, res: Result, tier: str) -> None:
     check_matrix_view(prog, res)
     from ..derive import check_container_kinds
     check_container_kinds(prog, res)
+    # in-place relabelling is one of the editing operations of this property:
+    # the renaming rules of C11 are obligations here too
+    from . import C11
+    from .common import merge_rules
+    tmp = Result(res.prop)
+    C11.run(prog, tmp, tier)
+    merge_rules(res, tmp, ("R-RENAME-TOTAL", "R-RENAME-ALL",
+                           "R-SLOT-COVER[relabel]", "R-REBUILD-SOURCE"))
